@@ -117,21 +117,44 @@ end Tree
 
 /-! ## Skeleton: everything of a node except the protection marks -/
 
-/-- The fields of a tree node that the marking functions never touch. -/
-def TNode.core (n : TNode) : Version × List Import × Bool × Nat := (n.ver, n.ideps, n.processed, n.id)
+/-- A tree entry without the protection marks. -/
+structure DEntry where
+  path : Path
+  ver : Version
+  ideps : List Import
+  processed : Bool
+  id : Nat
+deriving DecidableEq
 
-def Tree.skel (t : Tree) : List (Path × Version × List Import × Bool × Nat) :=
-  t.map fun e => (e.1, e.2.core)
+/-- A tree entry without the marks and the `processed` flag: what never changes. -/
+structure SEntry where
+  path : Path
+  ver : Version
+  ideps : List Import
+  id : Nat
+deriving DecidableEq
 
-theorem Tree.skel_keys (t : Tree) : t.skel.map (·.1) = t.keys := by
-  simp [Tree.skel, Tree.keys]
+def TNode.dentry (p : Path) (n : TNode) : DEntry := ⟨p, n.ver, n.ideps, n.processed, n.id⟩
+def DEntry.static (d : DEntry) : SEntry := ⟨d.path, d.ver, d.ideps, d.id⟩
 
-theorem Tree.keys_eq_of_skel {t t' : Tree} (h : t'.skel = t.skel) : t'.keys = t.keys := by
-  rw [← Tree.skel_keys, ← Tree.skel_keys, h]
+def Tree.dyn (t : Tree) : List DEntry := t.map fun e => e.2.dentry e.1
+def Tree.static (t : Tree) : List SEntry := t.dyn.map DEntry.static
 
-theorem Tree.skel_modify (t : Tree) (p : Path) (f : TNode → TNode) (hf : ∀ n, (f n).core = n.core) :
-    (t.modify p f).skel = t.skel := by
-  simp only [Tree.modify, Tree.skel, List.map_map]
+theorem Tree.static_keys (t : Tree) : t.static.map (·.path) = t.keys := by
+  simp [Tree.static, Tree.dyn, Tree.keys, DEntry.static, TNode.dentry, Function.comp_def]
+
+theorem Tree.dyn_keys (t : Tree) : t.dyn.map (·.path) = t.keys := by
+  simp [Tree.dyn, Tree.keys, TNode.dentry, Function.comp_def]
+
+theorem Tree.keys_eq_of_dyn {t t' : Tree} (h : t'.dyn = t.dyn) : t'.keys = t.keys := by
+  rw [← Tree.dyn_keys, ← Tree.dyn_keys, h]
+
+theorem Tree.static_eq_of_dyn {t t' : Tree} (h : t'.dyn = t.dyn) : t'.static = t.static := by
+  simp [Tree.static, h]
+
+theorem Tree.dyn_modify (t : Tree) (p : Path) (f : TNode → TNode)
+    (hf : ∀ q n, (f n).dentry q = n.dentry q) : (t.modify p f).dyn = t.dyn := by
+  simp only [Tree.modify, Tree.dyn, List.map_map]
   apply List.map_congr_left
   intro e _
   simp only [Function.comp]
@@ -139,33 +162,33 @@ theorem Tree.skel_modify (t : Tree) (p : Path) (f : TNode → TNode) (hf : ∀ n
   · simp [hf]
   · rfl
 
-@[simp] theorem Tree.skel_append (t l : Tree) : (t ++ l).skel = t.skel ++ l.skel := by
-  simp [Tree.skel]
+@[simp] theorem Tree.dyn_append (t l : Tree) : (t ++ l).dyn = t.dyn ++ l.dyn := by
+  simp [Tree.dyn]
 
-/-- A property of (path, core) pairs transfers between trees with the same skeleton. -/
-theorem Tree.forall_core_of_skel {t t' : Tree} (h : t'.skel = t.skel)
-    {P : Path → Version × List Import × Bool × Nat → Prop}
-    (hP : ∀ e ∈ t, P e.1 e.2.core) : ∀ e ∈ t', P e.1 e.2.core := by
-  intro e he
-  have : (e.1, e.2.core) ∈ t'.skel := List.mem_map.2 ⟨e, he, rfl⟩
-  rw [h] at this
-  obtain ⟨e0, he0, heq⟩ := List.mem_map.1 this
-  simp only [Prod.mk.injEq] at heq
-  rw [← heq.1, ← heq.2]
-  exact hP e0 he0
+@[simp] theorem Tree.static_append (t l : Tree) : (t ++ l).static = t.static ++ l.static := by
+  simp [Tree.static]
 
-theorem Tree.exists_core_of_skel {t t' : Tree} (h : t'.skel = t.skel) {e : Path × TNode} (he : e ∈ t) :
-    ∃ e' ∈ t', e'.1 = e.1 ∧ e'.2.core = e.2.core := by
-  have : (e.1, e.2.core) ∈ t.skel := List.mem_map.2 ⟨e, he, rfl⟩
-  rw [← h] at this
-  obtain ⟨e0, he0, heq⟩ := List.mem_map.1 this
-  simp only [Prod.mk.injEq] at heq
-  exact ⟨e0, he0, heq.1, heq.2⟩
+theorem Tree.mem_dyn_of_get? {t : Tree} {p : Path} {n : TNode} (h : t.get? p = some n) :
+    n.dentry p ∈ t.dyn :=
+  List.mem_map.2 ⟨(p, n), Tree.get?_some_mem h, rfl⟩
 
-theorem markNode_core (ipk alias : Name) (n : TNode) : (markNode ipk alias n).core = n.core := by
+theorem Tree.mem_dyn {t : Tree} {d : DEntry} (h : d ∈ t.dyn) :
+    ∃ n, (d.path, n) ∈ t ∧ d = n.dentry d.path := by
+  obtain ⟨e, he, rfl⟩ := List.mem_map.1 h
+  exact ⟨e.2, he, rfl⟩
+
+theorem Tree.mem_static_of_mem_dyn {t : Tree} {d : DEntry} (h : d ∈ t.dyn) : d.static ∈ t.static :=
+  List.mem_map.2 ⟨d, h, rfl⟩
+
+theorem Tree.mem_static {t : Tree} {s : SEntry} (h : s ∈ t.static) : ∃ d ∈ t.dyn, d.static = s :=
+  List.mem_map.1 h
+
+theorem markNode_dentry (ipk alias : Name) (q : Path) (n : TNode) :
+    (markNode ipk alias n).dentry q = n.dentry q := by
   unfold markNode; split <;> rfl
 
-theorem addProtected_core (pkg : Name) (n : TNode) : (addProtected pkg n).core = n.core := rfl
+theorem addProtected_dentry (pkg : Name) (q : Path) (n : TNode) :
+    (addProtected pkg n).dentry q = n.dentry q := rfl
 
 /-- Whether a slot is occupied depends on the keys only. -/
 theorem candidate_isSome_keys {t t' : Tree} (h : t'.keys = t.keys) (p : Path) (ipk alias : Name) :
@@ -235,7 +258,8 @@ theorem candidate_some {t : Tree} {p : Path} {ipk alias : Name} {cp : Path} {c :
     (h : candidate t p ipk alias = some (cp, c, b)) :
     t.get? cp = some c ∧ ∃ s : Slot, cp = s :: p ∧
       s.name = (if alias = Name.empty then ipk else alias) ∧
-      (b = true → alias = Name.empty ∧ s.alias = false) := by
+      (b = true → alias = Name.empty ∧ s.alias = false) ∧
+      (b = false → alias ≠ Name.empty ∨ s.alias = true) := by
   unfold candidate at h
   split at h
   · rename_i ha
@@ -243,43 +267,43 @@ theorem candidate_some {t : Tree} {p : Path} {ipk alias : Name} {cp : Path} {c :
     | some c1 =>
       rw [h1] at h; simp only [Option.some.injEq, Prod.mk.injEq] at h
       obtain ⟨rfl, rfl, rfl⟩ := h
-      exact ⟨h1, ⟨false, ipk⟩, rfl, by simp [ha], fun _ => ⟨ha, rfl⟩⟩
+      exact ⟨h1, ⟨false, ipk⟩, rfl, by simp [ha], fun _ => ⟨ha, rfl⟩, fun hb => by cases hb⟩
     | none =>
       rw [h1] at h; simp only at h
       cases h2 : t.get? (⟨true, ipk⟩ :: p) with
       | some c2 =>
         rw [h2] at h; simp only [Option.some.injEq, Prod.mk.injEq] at h
         obtain ⟨rfl, rfl, rfl⟩ := h
-        exact ⟨h2, ⟨true, ipk⟩, rfl, by simp [ha], fun hb => by cases hb⟩
+        exact ⟨h2, ⟨true, ipk⟩, rfl, by simp [ha], (fun hb => by cases hb), fun _ => Or.inr rfl⟩
       | none => rw [h2] at h; cases h
   · rename_i ha
     cases h1 : t.get? (⟨true, alias⟩ :: p) with
     | some c1 =>
       rw [h1] at h; simp only [Option.some.injEq, Prod.mk.injEq] at h
       obtain ⟨rfl, rfl, rfl⟩ := h
-      exact ⟨h1, ⟨true, alias⟩, rfl, by simp [ha], fun hb => by cases hb⟩
+      exact ⟨h1, ⟨true, alias⟩, rfl, by simp [ha], (fun hb => by cases hb), fun _ => Or.inl ha⟩
     | none =>
       rw [h1] at h; simp only at h
       cases h2 : t.get? (⟨false, alias⟩ :: p) with
       | some c2 =>
         rw [h2] at h; simp only [Option.some.injEq, Prod.mk.injEq] at h
         obtain ⟨rfl, rfl, rfl⟩ := h
-        exact ⟨h2, ⟨false, alias⟩, rfl, by simp [ha], fun hb => by cases hb⟩
+        exact ⟨h2, ⟨false, alias⟩, rfl, by simp [ha], (fun hb => by cases hb), fun _ => Or.inl ha⟩
       | none => rw [h2] at h; cases h
 
-theorem markProtected_skel (ipk alias : Name) (t : Tree) (p : Path) :
-    (markProtected ipk alias t p).skel = t.skel := by
+theorem markProtected_dyn (ipk alias : Name) (t : Tree) (p : Path) :
+    (markProtected ipk alias t p).dyn = t.dyn := by
   induction p generalizing t with
   | nil =>
     simp only [markProtected]
     split
     · rfl
-    · exact Tree.skel_modify _ _ _ (markNode_core ipk alias)
+    · exact Tree.dyn_modify _ _ _ (markNode_dentry ipk alias)
   | cons s parent ih =>
     simp only [markProtected]
     split
     · rfl
-    · rw [ih]; exact Tree.skel_modify _ _ _ (markNode_core ipk alias)
+    · rw [ih]; exact Tree.dyn_modify _ _ _ (markNode_dentry ipk alias)
 
 /-- `q` is `p` or an ancestor directory of `p`. -/
 def IsSuffix (q p : Path) : Prop := ∃ pre, p = pre ++ q
@@ -291,8 +315,8 @@ theorem IsSuffix.trans {a b c : Path} (h1 : IsSuffix a b) (h2 : IsSuffix b c) : 
   obtain ⟨p1, rfl⟩ := h1; obtain ⟨p2, rfl⟩ := h2; exact ⟨p2 ++ p1, by simp⟩
 theorem IsSuffix.nil (p : Path) : IsSuffix [] p := ⟨p, by simp⟩
 
-theorem hoist_skel {pkg alias : Name} {t t' : Tree} {p parent : Path}
-    (h : hoist pkg alias t p = .ok (t', parent)) : t'.skel = t.skel ∧ IsSuffix parent p := by
+theorem hoist_dyn {pkg alias : Name} {t t' : Tree} {p parent : Path}
+    (h : hoist pkg alias t p = .ok (t', parent)) : t'.dyn = t.dyn ∧ IsSuffix parent p := by
   induction p generalizing t with
   | nil =>
     simp only [hoist, Outcome.ok.injEq, Prod.mk.injEq] at h
@@ -311,7 +335,7 @@ theorem hoist_skel {pkg alias : Name} {t t' : Tree} {p parent : Path}
           obtain ⟨rfl, rfl⟩ := h
           exact ⟨rfl, IsSuffix.refl _⟩
         · obtain ⟨h1, h2⟩ := ih h
-          rw [Tree.skel_modify _ _ _ (addProtected_core pkg)] at h1
+          rw [Tree.dyn_modify _ _ _ (addProtected_dentry pkg)] at h1
           exact ⟨h1, h2.cons s⟩
 
 /-- At the directory `hoist` ends in, the slot is free whenever it was free where the
